@@ -190,13 +190,20 @@ def _private_copies(fn):
             and A.unparse(v.args[0]) == 'self' and A.const_str(v.args[1]) == attr)
   for s in ast.walk(fn):
     if isinstance(s, ast.Assign):
+      pairs = []
       for t in s.targets:
+        if isinstance(t, (ast.Tuple, ast.List)) and isinstance(s.value, (ast.Tuple, ast.List)) \
+            and len(t.elts) == len(s.value.elts):
+          pairs += list(zip(t.elts, s.value.elts))       # (a._x, a._y) = (self._x, self._y)
+        else:
+          pairs.append((t, s.value))
+      for t, v in pairs:
         d = A.dotted(t)
         if not d or d.count('.') != 1 or d.startswith('self.'):
           continue
         attr = d.split('.')[1]
         if attr.startswith('_'):
-          out.append((s, attr, s.value, is_self_attr(s.value, attr)))
+          out.append((s, attr, v, is_self_attr(v, attr)))
   # string forms, with loop expansion
   def names_of(expr, env):
     cs = A.const_str(expr)
@@ -258,7 +265,11 @@ def rule_d(ctx, overrides):
                 if d and d.startswith('self._') and d.count('.') == 1:
                   mutated.add(d.split('.')[1])
     n = 0
-    for s, attr, v, alias in _private_copies(m.node):
+    # the override and the private helpers it hands the new object to
+    copies = []
+    for h in S.helper_closure(idx, m):
+      copies += _private_copies(h.node)
+    for s, attr, v, alias in copies:
         n += 1
         construct = f'{m.fq}#{attr}'
         if attr in memos:
